@@ -36,9 +36,10 @@ func findBurnState(states *[]types.State) int {
 
 func findAccountState(states *[]types.State, account *types.Account) int {
 	for pos, state := range *states {
-		if state.Account.Id == account.Id && state.Account.Id != "" && &state.Account.Id != nil {
-			return pos
-		} else if state.Account.Id == account.Id && state.Account.Id == "" {
+		if state.Burn || state.Account == nil || state.Account.Type != account.Type {
+			continue
+		}
+		if state.Account.Id == account.Id {
 			return pos
 		}
 	}
